@@ -206,8 +206,8 @@ def classifyPath (parts : List Str) : Option BlockPattern :=
     | [a, b] => a == "thread".toList && b == "sleep".toList
     | _ => false)
   let isNet := (match parts with
-    | a :: b :: c :: _ => (a == "std".toList && b == "net".toList && netTypes.contains c) || (a == "net".toList && netTypes.contains b)
-    | [a, b] => a == "net".toList && netTypes.contains b
+    | a :: b :: c :: _ => (a == "std".toList && b == "net".toList && netTypes.contains c) || (a == "net".toList && netTypes.contains b) || netTypes.contains a
+    | [a, b] => (a == "net".toList && netTypes.contains b) || netTypes.contains a
     | _ => false)
   if isFs then some .fs else if isSleep then some .sleep else if isNet then some .net else none
 
